@@ -153,10 +153,16 @@ def _colour_events(seed, thorough, tid0):
         if not np.any(y):
             y[(0,) * len(shape)] = 1                      # relative_error documents inf for a zero reference
             x = y.copy() if n % 2 == 0 else x
-        p = Q.psnr(x.astype(float), y.astype(float))
-        r = Q.relative_error(x.astype(float), y.astype(float))
+        # one pair of float arrays goes through every metric in turn, as a caller's pipeline does
+        xf, yf = x.astype(float), y.astype(float)
+        kw = {} if n % 3 else {"data_range": 255.0}
+        p = Q.psnr(xf, yf, **kw)
+        r = Q.relative_error(xf, yf)
+        p2 = Q.psnr(xf, yf, **kw)
         ev.append({"tid": tid, "op": "metric", "x": x.tolist(), "y": y.tolist(),
-                   "psnr_inf": bool(p == float("inf")), "relerr_zero": bool(r == 0.0)})
+                   "psnr_inf": bool(p == float("inf")), "relerr_zero": bool(r == 0.0),
+                   "psnr_again_inf": bool(p2 == float("inf")),
+                   "same_after": bool(np.array_equal(xf, x) and np.array_equal(yf, y))})
     # one-ulp difference is still a difference
     tid += 1
     a = np.array([1.0, 2.0, 3.0])
